@@ -21,12 +21,14 @@ func init() {
 		Assumptions: []string{
 			"sequences of 1-2 OBUs over the full alphabets (types {0,1,2,3,4,5,6,8,15}, extension none/(0,0)/(1,0)/(0,1)/(2,1), 8-13 sizes), 3 OBUs over 4 types x 3 extensions x 4 sizes, 4 OBUs over 3x3x3 (thorough: 5 OBUs over 3x2x2); MTU {2,3,4,5,6,8,16,130,131,200}",
 			"every ordered pair of the 32 layer ids (8 temporal x 4 spatial), alone and followed by an OBU of the first layer; layer boundaries: all sequences of 3-5 OBUs over {frame of layer (0,0) / (1,0) / (0,1) / without extension, temporal delimiter and tile list with and without extension, sequence header} at MTU {5,200}; wide scenario: all sequences of 6-8 OBUs over {frame 1B, frame MTU-1 B, temporal delimiter, frame with another layer id} for MTU {4,9,40}; every OBU type 0-15 x every extension (t,s) with t in 0..7, s in 0..3 alone and after a frame; input size fields padded to non-minimal LEB128; 64-300 one- and two-byte OBUs in one call (more than 256 elements in a packet); OBUs of 16382/16383/16384/70000 bytes (3-byte LEB128 sizes, more than 256 fragments) for MTU {5,200,20000,65535} and of 2^21-2 .. 2^21+1 bytes (4-byte LEB128 sizes) for MTU {20000,65535}",
+			"reserved header bits (obu_reserved_1bit and the three reserved bits of the extension header) are part of the OBU and must come back as sent: all sequences of 1-3 OBUs over type {1,6} x extension none/(1,0) x size {0,1,5,MTU+3} x reserved bits {none, header bit, extension bits, all} at MTU {5,16,200}",
 			"OBU payload bytes are position dependent; OBU contents are not parsed by the RTP layer",
 			"LEB128: all 2^32 values in the thorough tier; quick: 4096 values on each side of every 7-bit boundary and a 2^16-stride sweep",
 		},
 		Scenarios: []mc.Scenario{
 			{Name: "payloader-depacketizer-roundtrip", Tiers: "qt", ShardDepth: 4, Run: c13Roundtrip},
 			{Name: "long-sequences-and-large-obus", Tiers: "qt", ShardDepth: 3, Run: c13Wide},
+			{Name: "reserved-header-bits", Tiers: "qt", ShardDepth: 2, Run: c13Reserved},
 			{Name: "leb128", Tiers: "qt", ShardDepth: 1, Run: c13Leb},
 			{Name: "obu-header-all-byte-pairs", Tiers: "qt", ShardDepth: 1, Run: c13Header},
 		},
@@ -463,4 +465,28 @@ func c13Wide(c *mc.Ctx) {
 		}
 		c13Run(c, mtu, obus, omit)
 	}
+}
+
+// c13Reserved: the reserved bits of the OBU header and of its extension belong to the OBU.
+func c13Reserved(c *mc.Ctx) {
+	mtu := mc.From(c, []int{5, 16, 200})
+	n := 1 + c.Pick(3)
+	obus := make([]ref.OBU, n)
+	for i := range obus {
+		ext := c.Bool()
+		o := ref.OBU{Type: mc.From(c, []uint8{1, 6}), HasExt: ext, Payload: fill(mc.From(c, []int{0, 1, 5, mtu + 3}), byte(i*31+5))}
+		if ext {
+			o.TID = 1
+			o.Res = mc.From(c, []uint8{0, 1, 0xE, 0xF})
+		} else {
+			o.Res = uint8(c.Pick(2))
+		}
+		obus[i] = o
+	}
+	omitLast := c.Bool()
+	what := c13Describe(mtu, obus, omitLast)
+	for _, o := range obus {
+		what += fmt.Sprintf(" res=%#x", o.Res)
+	}
+	c13RunBytes(c, mtu, obus, ref.AV1Stream(obus, omitLast), what)
 }
